@@ -6,7 +6,7 @@ ID = "C09"
 LEAN_MODULES = ["LhasaV.Props.C09"]
 VH_FEATURES = ["decoder"]
 PER_OP_SECONDS = 30
-THEOREMS = {}
+THEOREMS = {"wrap_le_asked": "full: every inner decoder, state and request size"}
 TRUSTED = ["hand-written decoder models (LhasaV.Model.{Bits,Tree,LhNew,Lh1,Lzs,Pm,Wrap}); every C array access is a checked "
            "access against the capacity extracted from the compiled source (Gen.Decoders)",
            "clang ASan + UBSan(bounds,null,...) as the observer of memory errors in the compiled decoders"]
@@ -77,6 +77,17 @@ def gen_cases(ctx, per_method):
             chunk = r.choice([0, 0, 0, 1, 2, 3])
             out.append(Case(S.dec_op(meth, declen, chunk, r.choice([-1, -1, 0, 1]), sched, data),
                             judge=judge(declen), tags=tags))
+    return out
+
+
+def corpus_cases(ctx):
+    import glob, os
+    out = []
+    for f in sorted(glob.glob(os.path.join(core.VERIF, "corpus", "C09", "*.txt"))):
+        for line in open(f):
+            line = line.strip()
+            if line:
+                out.append(Case(line, judge=judge(int(line.split()[2])), tags={"corpus", "m=" + line.split()[1]}))
     return out
 
 
